@@ -107,6 +107,8 @@ def rsqrt_axioms(terms):
             if z3.is_app(app) and app.decl().eq(rsqrt) and app.get_id() not in seen:
                 seen.add(app.get_id())
                 x = app.arg(0)
+                if any(z3.is_var(u) for u in _subterms(x)):
+                    continue          # under a binder: no ground instance here
                 out.append(z3.Implies(x >= 0, z3.And(app >= 0, app * app == x)))
                 out.append(z3.Implies(x == 0, app == 0))
     return out
